@@ -14,7 +14,8 @@ RULE = (
     "Well-formed descriptions of the C01 grammar and damaged ones (token deletion / duplication / swap / truncation / colon "
     "removal / stray Twp/Rge or section inserted) x parse modes {default, segment, sec_within, sec_colon_required, "
     "sec_colon_cautious, segment+sec_within, each of the four layouts and copy_all forced through parse(layout=), and combinations: "
-    "any 1..3 of the four flags with or without a layout mandated through parse(layout=) or the config text} x one foreign word "
+    "any 1..3 of the four flags with or without a layout mandated through parse(layout=) or the config text; and uncommitted parses, where the "
+    "returned tracts and the flags they carry are all there is to look at} x one foreign word "
     "inserted at any token or punctuation boundary (start, end, inside a Twp/Rge, inside a section list, inside a block, "
     "before the first / after the last Twp/Rge). Words: the marker QJXKQ, random alphabetic words of 5..12 letters, and "
     "ordinary deed words that collide with pattern fragments (equipment, development, northerly, ...). Oracle: the word is "
@@ -28,7 +29,7 @@ ASSUMPTIONS = [
     "A word starting with n/s/e/w is not inserted directly after a number (there its first letters are that number's N/S/E/W): counted exclusion.",
 ]
 
-MODES = ["", "segment", "sec_within", "sec_colon_required", "sec_colon_cautious", "segment,sec_within",
+MODES = ["", "segment", "sec_within", "sec_colon_required", "sec_colon_cautious", "segment,sec_within", "nocommit", "segment,nocommit",
          "layout:TRS_desc", "layout:desc_STR", "layout:S_desc_TR", "layout:TR_desc_S", "layout:copy_all"]
 
 DEED_WORDS = ["equipment", "development", "northerly", "southerly", "easement", "easterly", "westerly", "improvements", "topmost",
@@ -121,9 +122,26 @@ CASE = st.fixed_dictionaries({
 _last = {}
 
 
+class _Uncommitted:
+    """What an uncommitted parse leaves to look at: the tracts it returned (and the flags they carry)."""
+
+    def __init__(self, d, tracts):
+        self.tracts = tracts
+        self.pp_desc = d.pp_desc
+        self.e_flags = [f for t in tracts for f in t.e_flags]
+
+
 def parse(text, mode):
-    """mode: comma-separated settings; 'layout:X' is handed to parse(layout=X), 'cfglayout:X' is part of the config text."""
+    """mode: comma-separated settings; 'layout:X' is handed to parse(layout=X), 'cfglayout:X' is part of the config text;
+    'nocommit' parses with commit=False and looks at the returned tracts only."""
     parts = [m for m in mode.split(",") if m]
+    if "nocommit" in parts:
+        parts.remove("nocommit")
+        forced = [m.split(":", 1)[1] for m in parts if m.startswith("layout:")]
+        cfg = ",".join(m.split(":", 1)[1] if m.startswith("cfglayout:") else m for m in parts if not m.startswith("layout:"))
+        d = PLSSDesc(text, config=cfg, wait_to_parse=True)
+        tracts = d.parse(commit=False, **({"layout": forced[0]} if forced else {}))
+        return _Uncommitted(d, tracts)
     forced = [m.split(":", 1)[1] for m in parts if m.startswith("layout:")]
     cfg = ",".join(m.split(":", 1)[1] if m.startswith("cfglayout:") else m for m in parts if not m.startswith("layout:"))
     if forced:
